@@ -14,7 +14,12 @@ N = {"quick": 4000, "thorough": 160000}
 def new_run():
     return Run(PID, "exploration",
                "cases = (schema spec, table) from pvm.gen.spec (conforming by "
-               "construction, then 0-3 targeted mutations); non-trivial = the "
+               "construction, then 0-3 targeted mutations incl. a renamed / unnamed index); "
+               "30 % of the cases carry falsy-but-legal labels (0, 0.0, False, '') for columns, "
+               "index / level names and the Series name; 5 % are schemas that declare only a "
+               "dataframe-level dtype; str_matches / str_contains also take compiled patterns "
+               "with flags; the config context is read before and after every validate; "
+               "non-trivial = the "
                "reference model decides the case (not 'undecided') and the "
                "schema has at least one constraint; distinct = canonical hash of "
                "(spec, table)",
@@ -32,7 +37,7 @@ def classify(spec, table, v, out):
     return None
 
 
-def one_case(run, spec, table, muts, tag=""):
+def one_case(run, spec, table, muts, tag="", relabelled=None):
     v = M.evaluate(spec, table)
     key = canon_hash([spec, table])
     try:
@@ -50,6 +55,12 @@ def one_case(run, spec, table, muts, tag=""):
     run.count(f"kind:{spec['kind']}")
     for m in muts:
         run.count(f"mutation:{m[0]}")
+    fields = (spec["columns"] if spec["kind"] == "frame" else [spec["field"]]) + list(spec.get("index") or [])
+    if v.accept is not None and any("flags" in c["args"] for fs in fields for c in fs["checks"]):
+        run.count("compiled_pattern_check:" + ("accept" if v.accept else "reject"))
+    if relabelled and v.accept is not None:
+        C.count_labels(run, relabelled)
+        run.count("labels:verdict_judged:" + ("accept" if v.accept else "reject"))
     if v.accept is None:
         run.count("undecided_by_docs")
         return
@@ -154,10 +165,23 @@ def run(run, ctx):
     n = N[ctx.tier]
     for i in ctx.cases(n):
         rng = ctx.rng(PID, i)
+        if i % 20 == 11:
+            # only a dataframe-level dtype, no declared columns; labels of any type
+            spec, table, muts = G.gen_dtype_only_case(rng)
+            rel = G.relabel(rng, spec, table, p=0.7)
+            run.count("dtype_only_schema")
+            one_case(run, spec, table, muts, relabelled=rel)
+            C.report_context_leaks(run, {"case": i})
+            continue
         spec, table, muts = G.gen_case(rng)
-        one_case(run, spec, table, muts)
+        # falsy-but-legal labels (0, 0.0, False, "") for columns, index / level
+        # names and the Series name
+        rel = G.relabel(rng, spec, table, p=0.3)
+        one_case(run, spec, table, muts, relabelled=rel)
         if i % 3 == 0:
             component_cases(run, rng, spec, table)
+        C.report_context_leaks(run, {"case": i})
+    C.finish_context_monitor(run)
     run.floor("model_accept", 50 // 1)
     run.floor("model_reject", 50)
     run.floor("verdict_agree", 100)
@@ -173,5 +197,12 @@ def finalize(run, ctx):
                     ("reject_reason:COLUMN_NOT_IN_SCHEMA", 5),
                     ("reject_reason:COLUMN_NOT_ORDERED", 5),
                     ("kind:series", 50), ("component:Column:accept", 100),
-                    ("component:Column:reject", 30), ("component:Index:accept", 20)]:
+                    ("component:Column:reject", 30), ("component:Index:accept", 20),
+                    # falsy labels, dtype-only schemas, compiled patterns, index names
+                    ("labels:verdict_judged:accept", 150), ("labels:verdict_judged:reject", 100),
+                    ("labels:columns:ints", 80), ("labels:columns:one", 150),
+                    ("labels:index_name", 20), ("labels:series_name", 25),
+                    ("dtype_only_schema", 50), ("compiled_pattern_check:accept", 20),
+                    ("compiled_pattern_check:reject", 10), ("mutation:index_rename", 10),
+                    ("config_monitor:validate_calls_bracketed", 1200)]:
         run.floors[name] = m
